@@ -223,6 +223,18 @@ pub fn cases(refs: &Refs, quick: bool, warm: bool) -> Vec<Case> {
 				texts.insert(tpl.replace('X', &x.to_string()));
 			}
 		}
+		// every printable ASCII character on its own (valid or not) in a path, a query and a host
+		for c in 0x20u8..0x7F {
+			let c = c as char;
+			texts.insert(format!("s:{c}"));
+			texts.insert(format!("s://h/p?{c}"));
+			texts.insert(format!("//a{c}/"));
+		}
+		// ports: empty, leading zeros, on both sides of u16, very long
+		for p in ["", "0", "9", "080", "65535", "65536", "99999", "100000", "12345678901234567890"] {
+			texts.insert(format!("s://h:{p}/"));
+			texts.insert(format!("//[::1]:{p}#f"));
+		}
 		// literals around 64 / 128 / 256 bytes, with a multi-byte character straddling every offset
 		for l in (58usize..=70).chain(124..=130).chain(252..=258) {
 			texts.insert(format!("s:{}", "a".repeat(l)));
